@@ -1,7 +1,8 @@
 (* Extraction of the C14 model (family "transform"): ExtrOcamlBasic + ExtrOcamlString only; Z/N/nat/Q stay inductive. *)
 From Coq Require Import Extraction ExtrOcamlBasic ExtrOcamlString.
-From LC Require Import Common NumDefs XmlDefs EntTreeDefs PrintDefs LoadDefs RoundtripSpec Load1xDefs To1xDefs.
+From LC Require Import Common NumDefs XmlDefs EntTreeDefs PrintDefs LoadDefs RoundtripSpec Load1xDefs To1xDefs MathNsDefs.
 Definition cellml_to_int := NumDefs.to_int.  (* avoids the clash with Z.to_int in the extracted module *)
 Extraction "transform_model.ml" z_to_string is_real cellml_to_int
   print_model print_tree load canon printableb flat no_imports no_hierarchy no_connections
-  load1x to1x conv1x conv_ok expressible_1xb rewrite_math math_in_scope is_message.
+  load1x to1x conv1x conv_ok expressible_1xb rewrite_math math_in_scope is_message
+  stored_math erase no_1x_decl.
